@@ -1,0 +1,120 @@
+//! Verification hooks (only compiled with `--cfg gothenburgbitfactory_taskchampion_verif`).
+//!
+//! Nothing in this module is part of the crate's supported API. It gives an external
+//! model-checking harness (a) named failpoints between the internal steps of the local and git
+//! server backends, (b) a memo of derived encryption keys, and, with the `cloud` feature,
+//! (c) an in-memory object store behind the real `CloudServer`, whose every request first
+//! passes through a harness-supplied gate.
+
+use crate::errors::{Error, Result};
+use std::cell::RefCell;
+
+#[cfg(feature = "cloud")]
+pub use crate::server::cloud::verif::*;
+
+/// What a failpoint handler asks the code under test to do.
+#[derive(Debug, Clone, Copy, PartialEq, Eq)]
+pub enum FailAction {
+    /// Carry on normally.
+    Continue,
+    /// Return an error from the failpoint.
+    Error,
+    /// Simulate a process stop: unwind with a [`FailpointStop`] payload.
+    Stop,
+}
+
+/// Panic payload used by [`FailAction::Stop`].
+#[derive(Debug)]
+pub struct FailpointStop(pub String);
+
+type Handler = Box<dyn FnMut(&str) -> FailAction>;
+
+thread_local! {
+    static HANDLER: RefCell<Option<Handler>> = const { RefCell::new(None) };
+}
+
+/// Install (or remove) the failpoint handler of the calling thread.
+pub fn set_failpoint_handler(h: Option<Handler>) {
+    HANDLER.with(|c| *c.borrow_mut() = h);
+}
+
+/// A named failpoint. Without a handler this is a no-op.
+pub fn failpoint(name: &str) -> Result<()> {
+    let action = HANDLER.with(|c| match c.borrow_mut().as_mut() {
+        Some(h) => h(name),
+        None => FailAction::Continue,
+    });
+    match action {
+        FailAction::Continue => Ok(()),
+        FailAction::Error => Err(Error::Server(format!("verif failpoint {name}"))),
+        FailAction::Stop => std::panic::panic_any(FailpointStop(name.to_string())),
+    }
+}
+
+/// Memo of derived keys, keyed by (salt, secret). Stores exactly what the real derivation
+/// returned.
+#[cfg(feature = "encryption")]
+pub(in crate::server) mod keymemo {
+    use std::collections::HashMap;
+    use std::sync::{Mutex, OnceLock};
+
+    type Map = HashMap<(Vec<u8>, Vec<u8>), Vec<u8>>;
+    static MEMO: OnceLock<Mutex<Map>> = OnceLock::new();
+    static ENABLED: std::sync::atomic::AtomicBool = std::sync::atomic::AtomicBool::new(false);
+
+    pub(in crate::server) fn get(salt: &[u8], secret: &[u8]) -> Option<Vec<u8>> {
+        if !ENABLED.load(std::sync::atomic::Ordering::Relaxed) {
+            return None;
+        }
+        MEMO.get_or_init(Default::default)
+            .lock()
+            .unwrap()
+            .get(&(salt.to_vec(), secret.to_vec()))
+            .cloned()
+    }
+
+    pub(in crate::server) fn put(salt: &[u8], secret: &[u8], key: &[u8]) {
+        if !ENABLED.load(std::sync::atomic::Ordering::Relaxed) {
+            return;
+        }
+        MEMO.get_or_init(Default::default)
+            .lock()
+            .unwrap()
+            .insert((salt.to_vec(), secret.to_vec()), key.to_vec());
+    }
+
+    pub(in crate::server) fn enable(on: bool) {
+        ENABLED.store(on, std::sync::atomic::Ordering::Relaxed);
+    }
+}
+
+/// Enable or disable the derived-key memo (off by default).
+#[cfg(feature = "encryption")]
+pub fn enable_key_memo(on: bool) {
+    keymemo::enable(on);
+}
+
+/// Seal `payload` for `version_id` with the crate's own `Cryptor` (key derived from
+/// `salt`/`secret`).
+#[cfg(feature = "encryption")]
+pub fn seal(salt: &[u8], secret: &[u8], version_id: uuid::Uuid, payload: Vec<u8>) -> Result<Vec<u8>> {
+    use crate::server::encryption::{Cryptor, Secret, Unsealed};
+    let c = Cryptor::new(salt, &Secret(secret.to_vec()))?;
+    Ok(c.seal(Unsealed {
+        version_id,
+        payload,
+    })?
+    .into())
+}
+
+/// Unseal `sealed` for `version_id` with the crate's own `Cryptor`.
+#[cfg(feature = "encryption")]
+pub fn unseal(salt: &[u8], secret: &[u8], version_id: uuid::Uuid, sealed: Vec<u8>) -> Result<Vec<u8>> {
+    use crate::server::encryption::{Cryptor, Sealed, Secret};
+    let c = Cryptor::new(salt, &Secret(secret.to_vec()))?;
+    Ok(c.unseal(Sealed {
+        version_id,
+        payload: sealed,
+    })?
+    .into())
+}
